@@ -43,6 +43,9 @@ func (x *Exec) runFrom(st *State, b *ssa.BasicBlock, idx int, prev *ssa.BasicBlo
 			return nil
 		}
 		f := st.top()
+		if idx == 0 && prev != nil {
+			x.atLoopExits(st, f, prev, b)
+		}
 		if idx == 0 {
 			if li := x.loopsOf(f.fn)[b]; li != nil {
 				if !x.atLoopHead(st, f, li) {
@@ -269,6 +272,39 @@ func (x *Exec) loopSpec(fn *ssa.Function, ord int) *LoopSpec {
 		return nil
 	}
 	return c.Loops[ord]
+}
+
+// atLoopExits: control goes from prev to b; for every loop that contains prev and not b, the loop's `exit` clauses are
+// obligations (an early `break` out of a loop that must run to completion is caught here: exhausted() is false)
+func (x *Exec) atLoopExits(st *State, f *Frame, prev, b *ssa.BasicBlock) {
+	for _, li := range x.loopsOf(f.fn) {
+		if !li.body[prev] || li.body[b] {
+			continue
+		}
+		if len(b.Instrs) > 0 {
+			if _, isPanic := b.Instrs[len(b.Instrs)-1].(*ssa.Panic); isPanic && len(b.Succs) == 0 {
+				continue // leaving by raising: governed by the panics clauses, not an exit of the loop
+			}
+		}
+		if _, active := f.active[li.head]; !active {
+			continue
+		}
+		spec, ord, host := x.loopContext(st, f, li)
+		if spec == nil || len(spec.Exits) == 0 {
+			continue
+		}
+		ctx := x.newSpecCtx(st, f, f.fn)
+		ctx.loop = li
+		if host != f {
+			ctx.host = host
+		}
+		x.bindLoopLets(ctx, st, host)
+		ctx.vars["$exhausted"] = mkT("Bool", BoolLit(prev == li.head).S, types.Typ[types.Bool])
+		for _, e := range spec.Exits {
+			g := ctx.boolExpr(e.E, true)
+			x.obligeSrc(st, "loop-exit", fmt.Sprintf("%s/loop%d/%s", funcKey(host.fn), ord, e.Name), g, x.blockPos(li.head), e.Src)
+		}
+	}
 }
 
 func (x *Exec) atLoopHead(st *State, f *Frame, li *LoopInfo) bool {
